@@ -4,6 +4,7 @@ import Driver.Trav
 import Driver.Dec
 import Driver.Parse
 import Driver.Load
+import Driver.Build
 /-!
 Line-protocol driver: evaluates the Lean model's executable definitions on requests read from stdin,
 one response per line. Built as a `lean_exe` (imports nothing outside core/Std).
@@ -27,6 +28,9 @@ def respond (line : String) : String :=
   | some r => r
   | none =>
   match respondLoad ws with
+  | some r => r
+  | none =>
+  match respondBuild ws with
   | some r => r
   | none => "bad-request"
 
